@@ -205,7 +205,9 @@ pub fn explore<O>(
     let mut total = Ratio::ZERO;
     loop {
         let mut env = Env::new(prefix.clone());
+        crate::watch::enter_picks(prefix.iter().map(|c| c.pick));
         let obs = scenario(&mut env);
+        crate::watch::leave();
         if env.diverged.is_some() && stats.diverged.is_none() {
             stats.diverged = env.diverged.clone();
         }
@@ -284,7 +286,9 @@ pub fn explore_bounded_h<O>(
     loop {
         let mut env = Env::new(prefix.clone());
         env.horizon = horizon;
+        crate::watch::enter_picks(prefix.iter().map(|c| c.pick));
         let obs = scenario(&mut env);
+        crate::watch::leave();
         if env.diverged.is_some() && stats.diverged.is_none() {
             stats.diverged = env.diverged.clone();
         }
